@@ -148,3 +148,73 @@ Proof.
   - right; left; reflexivity.
   - unfold corner_disp. cbv delta [sd_nzs] beta. P_C20_design.str_eval. P_C20_design.dec_b. eexists; reflexivity.
 Qed.
+
+(** ** Source-text tie for the helpers (the design-spectrum functions above have their own: Gen_design_spectra).
+    gen/Gen_helpers.v is RE-GENERATED on every run from eqsig/fns/average.py (calc_roll_av_vals, calc_step_fn_vals_error,
+    calc_step_fn_steps_vals) and eqsig/fns/generic.py (interp_left) by the fail-closed translator
+    translator/py2coq_helpers.py: one Gallina definition per function, every source assignment one [let], over the numpy
+    readings of lib/NpList.v and lib/NpHelpers.v (np.tril / np.triu of a broadcast 1-d array, np.arange, np.sum(axis=1), the
+    column broadcast [m[:, np.newaxis]], np.where, np.concatenate, np.cumsum, the in-place slice assignments, np.argmin,
+    np.searchsorted(side='right'), x ** int).  The theorems below say that the models the theorems above are about ARE what
+    the source text says, for ALL inputs: a changed operand / index / sign / literal / comparison in those functions changes
+    the generated term and these proofs stop checking.  Python ints are Z and are instantiated by [Z.of_nat] (steps >= 1,
+    pow >= 0, ind >= 0: the domain of the property); [mode] / [dir] are the Python strings ([dir] = None or a str).
+    What is PROVED: equality of the generated definition and the model, for every [NumOps] instance where no arithmetic law
+    is needed (step error, step levels: so also for the Q instance the correspondence executes), at R where one is
+    (roll_av: [b * np.ones(k)] is k copies of b; interp_left: [min(x0) >= x[0]] iff no query is below x[0]).
+    The guards [v <> []] / [xs <> []] / [qs <> []] are where Python raises IndexError / ValueError ([values[-1]], [err[-1]],
+    [x[0]], [min([])]); [hd n0] / [last _ n0] are read totally there.
+    What is NOT proved here and stays with the trusted reading / the correspondence of the run: interp2d (not translated);
+    the numpy semantics of each primitive as written in lib/NpHelpers.v (in particular np.searchsorted as a leading-prefix
+    count, valid on sorted nodes); agreement of the shapes of element-wise operands in general (map2 truncates where
+    numpy would raise; for the two slice assignments and the operations on slices the agreement IS proved:
+    C20_source_shapes_agree; the remaining element-wise operands are maps over the same index range); an index beyond len(y) in [y[inds]] (nth's default, IndexError in numpy); the float
+    dtype of np.ones_like(values) (integer input truncates: recorded known finding); binary64 rounding. *)
+From EQ Require Import lib.NpHelpers gen.Gen_helpers proofs.P_gen_helpers.
+
+Theorem C20_roll_av_is_source : forall (steps : nat) (v : list R), (1 <= steps)%nat ->
+  gen_roll_av v (Z.of_nat steps) "forward" = roll_av steps Forward v /\
+  gen_roll_av v (Z.of_nat steps) "backward" = roll_av steps Backward v /\
+  (forall mode, mode <> "forward"%string -> mode <> "backward"%string -> gen_roll_av v (Z.of_nat steps) mode = roll_av steps Centre v).
+Proof. exact P_gen_helpers.gen_roll_av_cases. Qed.
+(** the same for every number type in which [b * 1 = b] *)
+Theorem C20_roll_av_is_source_generic : forall (T : Type) (ops : NumOps T), (forall b : T, nmul b n1 = b) ->
+  forall (steps : nat) (mode : string) (v : list T), (1 <= steps)%nat ->
+  gen_roll_av v (Z.of_nat steps) mode = roll_av steps (P_gen_helpers.rmode_of mode) v.
+Proof. exact (@P_gen_helpers.gen_roll_av_eq_of). Qed.
+Theorem C20_step_err_is_source : forall (T : Type) (ops : NumOps T) (p : nat) (v : list T), v <> [] ->
+  gen_step_err v (Z.of_nat p) (Some "down"%string) = step_err p DDown v /\
+  gen_step_err v (Z.of_nat p) (Some "up"%string) = step_err p DUp v /\
+  (forall dir, dir <> Some "down"%string -> dir <> Some "up"%string -> gen_step_err v (Z.of_nat p) dir = step_err p DNone v).
+Proof. exact (@P_gen_helpers.gen_step_err_cases). Qed.
+(** given split, and the default split [np.argmin(calc_step_fn_vals_error(values))] (pow = 1, dir = None filled in from the signature) *)
+Theorem C20_step_levels_is_source : forall (T : Type) (ops : NumOps T) (v : list T),
+  (forall ind : nat, gen_step_levels v (Some (Z.of_nat ind)) = step_levels v ind) /\
+  (v <> [] -> gen_step_levels v None = step_levels_auto v).
+Proof. exact P_gen_helpers.gen_step_levels_eq. Qed.
+(** [None] on both sides = the call raises AssertionError; y = None is np.arange(len(x)) *)
+Theorem C20_interp_left_is_source : forall (qs xs : list R) (ys : option (list R)), xs <> [] -> qs <> [] ->
+  gen_interp_left qs xs ys = interp_left qs xs (match ys with None => arange (length xs) | Some y => y end).
+Proof. exact P_gen_helpers.gen_interp_left_eq. Qed.
+(** a number as x0 ([not hasattr(x0, '__len__')]): the one-query call, first element returned *)
+Theorem C20_interp_left_scalar_is_source : forall (q : R) (xs : list R) (ys : option (list R)), xs <> [] ->
+  gen_interp_left_scalar q xs ys = option_map (hd 0) (interp_left [q] xs (match ys with None => arange (length xs) | Some y => y end)).
+Proof. exact P_gen_helpers.gen_interp_left_scalar_eq. Qed.
+(** once the assertion has passed, [np.searchsorted(..) - 1] is never -1 (no wrap-around in [y[inds]]) *)
+Theorem C20_interp_left_indices_nonneg : forall (qs xs : list R), xs <> [] -> nleb (hd 0 xs) (amin qs) = true -> qs <> [] ->
+  Forall (fun k => (0 <= k)%Z) (map (fun k => Z.sub k 1%Z) (map (fun x => Z.of_nat (searchsorted_right xs x)) qs)).
+Proof. exact P_gen_helpers.gen_interp_left_indices_nonneg. Qed.
+Theorem C20_helper_defaults_are_source :
+  P_gen_helpers.rmode_of gen_roll_av_default_mode = Forward /\ gen_step_err_default_pow = 1%Z /\
+  P_gen_helpers.sdir_of gen_step_err_default_dir = DNone /\ gen_step_levels_default_ind = None /\
+  gen_interp_left_default_y_is_none = true.
+Proof. exact P_gen_helpers.gen_helper_defaults. Qed.
+(** the shapes numpy requires to agree in the two slice assignments and the two element-wise operations on slices do agree
+    (f, g stand for the err_pre / err_post entries; the reading itself does not check shapes) *)
+Theorem C20_source_shapes_agree : forall (steps : nat) (m : rmode) (f g : nat -> R) (v : list R), (1 <= steps)%nat ->
+  length (cumsum (roll_ext steps m v)) = (length (repeat 0 (Z.to_nat (Z.of_nat (length v) + Z.of_nat steps))) - 1)%nat /\
+  (forall c : list R, length (skipn steps c) = length (firstn (length c - steps) c)) /\
+  (length (skipn 1 (map g (seq 0 (length v)))) = (length v - 1)%nat /\
+   length (firstn (length (map f (seq 0 (length v))) - 1) (map f (seq 0 (length v)))) = (length v - 1)%nat /\
+   (length (map (fun _ : R => 1) v) - 1 = length v - 1)%nat).
+Proof. exact P_gen_helpers.gen_shapes_agree. Qed.
